@@ -45,7 +45,7 @@ def cases(tier, seed):
         lay = d["layout"]
         dev = c.get("devlevel")
         nfiles = max(len(l["files"]) if l else 1 for l in lay)
-        out.append({"desc": d, "devlevel": dev, "w": 1 + nfiles ** 3, "bound": 2 if (tier == "thorough" and nfiles <= 3) else 1})
+        out.append({"desc": d, "devlevel": dev, "w": min(1 + nfiles ** 3, 400), "bound": 2 if (tier == "thorough" and nfiles <= 3) else 1})
     return out
 
 
@@ -106,7 +106,7 @@ def run_case(case, workdir):
                         it = iter(pck[S.decode(ftag)][lv])
                         return list(itertools.islice(it, nb + 3))
                     return ctl, call(go)
-            for plan, ctl, (st, val) in explorer.explore(run_iter, bound=case.get("bound", 1), max_tasks=3 if nb > 8 else explorer.MAX_TASKS):
+            for plan, ctl, (st, val) in explorer.explore(run_iter, bound=case.get("bound", 1), max_tasks=(2 if nb > 64 else 3) if nb > 8 else explorer.MAX_TASKS):
                 ntasks = max([c["n"] for c in ctl.calls] or [0])
                 nontriv = ntasks > 1
                 rec.exe([dh, "iter", ftag, lv, explorer.plan_json(plan)], nontrivial=nontriv,
@@ -171,7 +171,7 @@ def run_case(case, workdir):
                             it = pck[S.decode(ftag)][lv].iter(S.decode(btag))
                             return list(itertools.islice(it, len(bsel) + 3))
                         return ctl, call(go)
-                for plan, ctl, (st, val) in explorer.explore(run_on_demand, bound=1, max_tasks=3 if nb > 8 else explorer.MAX_TASKS):
+                for plan, ctl, (st, val) in explorer.explore(run_on_demand, bound=1, max_tasks=(2 if nb > 64 else 3) if nb > 8 else explorer.MAX_TASKS):
                     rec.exe([dh, "ondemand", ftag, lv, btag, explorer.plan_json(plan)],
                             nontrivial=len(bsel) > 1, trans=sum(c["n"] for c in ctl.calls))
                     sub = {"op": "ondemand", "field": ftag, "level": lv, "box": btag,
